@@ -4,9 +4,11 @@ from props import codegen_common as cg
 from props import c01
 
 LEVEL = 'proof'
-MODULES = ['Pysmi.Props.C05']
-LAKE_TARGETS = ['Pysmi.Props.C05']
+MODULES = ['Pysmi.Props.C05', 'Pysmi.Pins.SkelC05']
+LAKE_TARGETS = ['Pysmi.Props.C05', 'Pysmi.Pins.SkelC05']
 THEOREMS = [
+    'Pysmi.Pins.SkelC05.pin_genDefVal',
+    'Pysmi.Pins.SkelC05.pin_getBaseType',
     'Pysmi.Syntax.parse_render',
     'Pysmi.Syntax.C05_literal_denotation',
     'Pysmi.Syntax.C05_hex_case',
@@ -320,8 +322,9 @@ def check_pysnmp_defaults(ctx, obs):
 
 
 def oct_base(base):
-    """the resolved base type is OCTET STRING (DisplayString and other string TCs resolve to it; Opaque does not)"""
-    return base.get('base') in ('OCTET STRING', 'DisplayString') or (base.get('kind') == 'str' and base.get('base') != 'Opaque')
+    """the resolved base type is OctetString for the code generator: OCTET STRING, DisplayString and other string TCs, and
+    Opaque (which pysmi resolves to OctetString as well)"""
+    return base.get('base') in ('OCTET STRING', 'DisplayString', 'Opaque') or base.get('kind') == 'str'
 
 
 def run(ctx):
